@@ -315,27 +315,80 @@ def load_property(prop_id: str) -> Property:
     return _PROP_CACHE[prop_id]
 
 
-def _pool_call(args: t.Tuple[t.Any, ...]) -> ShardResult:
-    return run_shard(*args)
+def _child(conn: t.Any, args: t.Tuple[t.Any, ...]) -> None:
+    try:
+        res = run_shard(*args)
+    except BaseException:
+        res = ShardResult(args[1], args[4], shard_seed(args[3], args[4]), 0, 0, {}, set(), {}, {}, [], [], 0.0, traceback.format_exc())
+    try:
+        conn.send(res)
+    finally:
+        conn.close()
 
 
 def run_parts(prop: Property, tier: str, seed: int, only_part: t.Optional[str] = None) -> t.List[ShardResult]:
+    """Run every shard of every part in its own (killable) process.
+
+    A shard that does not come back within its budget plus a grace period is killed (a case that does
+    not terminate, e.g. inside the C regex engine, cannot be interrupted from Python) and reported as
+    an error result: that is a harness-level 'inconclusive' (exit 2), never a violation - except for
+    C18, which measures cost with its own killable probes."""
     jobs = []
     for part in prop.parts:
         if only_part and part.name != only_part:
             continue
         n = part.shards[tier]
-        for s in range(n):
-            jobs.append((prop.id, part.name, tier, seed, s, n))
+        for s_ in range(n):
+            jobs.append((prop.id, part.name, tier, seed, s_, n))
     if not jobs:
         raise HarnessError("no parts to run")
-    nproc = min(len(jobs), int(os.environ.get("VERIF_PROCS", "16")))
-    if nproc <= 1:
-        return [_pool_call(j) for j in jobs]
+    nproc = max(1, min(len(jobs), int(os.environ.get("VERIF_PROCS", "16"))))
     ctxm = mp.get_context("fork")
-    with ctxm.Pool(nproc, maxtasksperchild=1) as pool:
-        res = pool.map(_pool_call, jobs, chunksize=1)
-    return res
+    pending = list(reversed(jobs))
+    running: t.List[t.Tuple[t.Any, t.Any, t.Tuple[t.Any, ...], float, float]] = []
+    results: t.Dict[t.Tuple[str, int], ShardResult] = {}
+    while pending or running:
+        while pending and len(running) < nproc:
+            args = pending.pop()
+            parent, child = ctxm.Pipe(duplex=False)
+            proc = ctxm.Process(target=_child, args=(child, args), daemon=True)
+            proc.start()
+            child.close()
+            budget = prop.part(args[1]).budget[tier]
+            running.append((proc, parent, args, time.monotonic(), budget * 1.5 + 60.0))
+        still = []
+        for proc, conn, args, t0, limit in running:
+            key = (args[1], args[4])
+            if conn.poll(0):
+                try:
+                    results[key] = conn.recv()
+                except EOFError:
+                    results[key] = ShardResult(args[1], args[4], shard_seed(seed, args[4]), 0, 0, {}, set(), {}, {}, [], [], 0.0,
+                                               "shard process died without a result")
+                conn.close()
+                proc.join(5)
+                continue
+            if not proc.is_alive():
+                # finished between poll and here, or died
+                if conn.poll(0.2):
+                    results[key] = conn.recv()
+                else:
+                    results[key] = ShardResult(args[1], args[4], shard_seed(seed, args[4]), 0, 0, {}, set(), {}, {}, [], [], 0.0,
+                                               f"shard process exited with code {proc.exitcode} without a result")
+                conn.close()
+                continue
+            if time.monotonic() - t0 > limit:
+                proc.kill()
+                proc.join(5)
+                conn.close()
+                results[key] = ShardResult(args[1], args[4], shard_seed(seed, args[4]), 0, 0, {}, set(), {}, {}, [], [], limit,
+                                           f"shard did not finish within {limit:.0f}s and was killed (a case did not terminate)")
+                continue
+            still.append((proc, conn, args, t0, limit))
+        running = still
+        if running:
+            time.sleep(0.02)
+    return [results[(j[1], j[4])] for j in jobs]
 
 
 def slug(key: str) -> str:
